@@ -1,12 +1,15 @@
 """C08 - removal and disconnection delete exactly the owned structure and nothing else."""
 from vf.registry import add
 from harness.topo_steps import mk, mk2, OPS2_FIRST, OPS2_SECOND, REMOVE_OPS, ENC
-S3_QUICK = ('remove_node', 'remove_component', 'remove_child_interface', 'disconnect_interface')
+S3_QUICK = ('remove_node', 'remove_component', 'remove_child_interface', 'disconnect_interface', 'prune', 'remove_node_service')
 for _k, _tiers in (('S4', ("quick", "thorough")), ('S3', ("thorough",)), ('S2', ("thorough",))):
     for _op in REMOVE_OPS:
         # S3 has the sub-interfaces and the single-interface service that the removals of S4 listed as known findings would hide
         _t = ("quick", "thorough") if (_k == 'S3' and _op in S3_QUICK) else _tiers
-        add("c08/%s/%s" % (_k, _op), mk('C08', _k, _op), timeout=900, tiers=_t, encodes=ENC,
+        if _op == 'prune' and _k in ('S3', 'S4'):
+            add("c08/%s/prune_all_subsets" % _k, mk('C08', _k, _op), timeout=2400, tiers=("thorough",), encodes=ENC,
+                bounds="skeleton %s, prune() after marking every one of the 1024 subsets of ten elements (nodes, components, services, interfaces)" % _k)
+        add("c08/%s/%s" % (_k, _op), mk('C08', _k, _op, small=(_op == 'prune')), timeout=900, tiers=_t, encodes=ENC,
             bounds="skeleton %s, one %s with symbolic arguments; post-snapshot == pre-snapshot minus the ownership closure of the addressed element "
                    "(owned sub-tree, its 2-ended links and the service-side ports peering with it); handle interface list == fresh lookup" % (_k, _op))
 
